@@ -14,6 +14,7 @@ From CGV Require Import Base.PyBase Base.PyVal Base.PyGen Sample.GenSupport Gen.
      Sample.SampleValid Sample.SampleExample.
 From CGV Require Base.NxGraph Resolve.GraphOps Resolve.SortProofs Resolve.SortGraphProofs Sample.SampleFinal Sample.SampleNumbering.
 From CGV Require Hydro.Hydrogens Hydro.HydroDefs Hydro.SquashDefs Hydro.RebuildProofs Sample.SampleValence Sample.SampleSorted.
+From CGV Require Gen.HydroGen Sample.SampleMassDefs Sample.SampleMassHydro Sample.SampleTemplateNx Sample.SampleHydrogenOrder.
 Import ListNotations.
 Open Scope Z_scope.
 
@@ -193,6 +194,20 @@ Section C16.
                                   Hydrogens.sum_orders (NxGraph.nadj n') = Ok (2 * v - 1))).
   Proof. exact (SampleSorted.sample_valence_total M c0 madd mltb misz R pick cfg Wf Ha). Qed.
 
+  (** explicit hydrogens / single-hydrogen fragments: the hydrogens ADDED by rebuild_h_atoms get keys above every key
+      of the grown molecule (which holds the template atoms of every copy, explicit hydrogens included), each bonded
+      to exactly one grown atom: inside a copy the later sort by (fragid, key) puts the template atoms first, the
+      completing hydrogens after them (what the oracle reads positionally) *)
+  Theorem C16_added_hydrogens_after_atoms : forall target fuel rng start nm i0 m cw log rng' car g',
+    sample_growth M c0 madd mltb misz R pick cfg target fuel rng start = Ok (nm, i0, m, cw, log, rng') ->
+    Hydrogens.rebuild_h_atoms_default (SampleFinal.to_nx m) car = Ok g' ->
+    exists hs, NxGraph.node_keys g' = map n_key (m_nodes m) ++ hs /\
+      forall j, In j hs ->
+        (forall k, In k (map n_key (m_nodes m)) -> k < j) /\
+        exists h k, NxGraph.gfind j g' = Some h /\ In k (map n_key (m_nodes m)) /\
+                    NxGraph.nadj h = [(k, Hydrogens.h_edge_attrs)] /\ Hydrogens.is_H (NxGraph.na h) = true.
+  Proof. exact (SampleHydrogenOrder.sample_hydrogens_after_atoms M c0 madd mltb misz R pick cfg Wf Ha). Qed.
+
   (** descriptor_once: per node and descriptor, occurrences still on the node plus occurrences
       consumed by bonds never increase along a step for old nodes, and start at what the template
       wrote for the nodes of the new copy: no written descriptor is used twice *)
@@ -225,6 +240,37 @@ Theorem C16_sample_numbering_canonical : forall aa g car gf, SampleFinal.finalis
        NxGraph.node_keys gf = map (NxGraph.map_get (GraphOps.mapping_of (GraphOps.isort ks))) (NxGraph.node_keys g1) /\
        Permutation.Permutation (NxGraph.node_keys gf) (map Z.of_nat (seq 0 (length g1)))).
 Proof. exact SampleNumbering.sample_numbering_canonical. Qed.
+
+(** the same about the hydrogen component's model, for ANY graph with distinct keys / closed adjacency / no loops:
+    keys of the completed graph = the original keys in order, then the added hydrogens, each above every original key *)
+Theorem C16_rebuild_keys_order : forall ca g1 g',
+  NoDup (NxGraph.node_keys g1) -> RebuildProofs.closed_g g1 -> RebuildProofs.noself_g g1 ->
+  (forall i n, NxGraph.gfind i g1 = Some n -> RebuildProofs.no_rs n) ->
+  Hydrogens.rebuild_after_car false ca g1 = Ok g' ->
+  exists hs, NxGraph.node_keys g' = NxGraph.node_keys g1 ++ hs /\
+    (forall j, In j hs -> (forall k, In k (NxGraph.node_keys g1) -> k < j) /\
+       exists m k, NxGraph.gfind j g' = Some m /\ In k (NxGraph.node_keys g1) /\
+                   NxGraph.nadj m = [(k, Hydrogens.h_edge_attrs)] /\ Hydrogens.is_H (NxGraph.na m) = true).
+Proof. exact SampleMassHydro.rebuild_keys_order. Qed.
+(** non-vacuity: the fragment C([H])C[O-] (explicit hydrogen at key 1): completed keys 0 1 2 3 | 4 5 6 7 *)
+Example C16_rebuild_keys_order_nonvacuous :
+  SampleTemplateNx.mass_wf SampleTemplateNx.ex_mass_tpl /\
+  exists g', Hydrogens.rebuild_after_car false HydroGen.rebuild_copy_attrs_default (SampleMassDefs.template_nx SampleTemplateNx.ex_mass_tpl) = Ok g' /\
+    NxGraph.node_keys g' = [0; 1; 2; 3; 4; 5; 6; 7] /\
+    map SampleMassDefs.elt g' = map (fun e => Some (PyVal.VStr (S e))) ["C"; "H"; "C"; "O"; "H"; "H"; "H"; "H"]%string.
+Proof.
+  split; [apply SampleTemplateNx.mass_wfb_sound; vm_compute; reflexivity|]. eexists. split; [vm_compute; reflexivity|].
+  split; vm_compute; reflexivity.
+Qed.
+
+(** non-vacuity of [C16_added_hydrogens_after_atoms]: the example run completed as an all-atom molecule (aromaticity
+    transcript = the grown graph with 'aromatic' set): 11 grown atoms keep the keys 0..10, 24 hydrogens get 11..34 *)
+Example C16_added_hydrogens_nonvacuous :
+  exists nm i0 m cw log r g', ex_run = Ok (nm, i0, m, cw, log, r) /\
+    Hydrogens.rebuild_h_atoms_default (SampleFinal.to_nx m)
+      (Some (NxGraph.set_all_nodes (SampleFinal.to_nx m) (S "aromatic") (PyVal.VBool false))) = Ok g' /\
+    map n_key (m_nodes m) = map Z.of_nat (seq 0 11) /\ NxGraph.node_keys g' = map Z.of_nat (seq 0 35).
+Proof. do 7 eexists. split; [vm_compute; reflexivity|]. split; [vm_compute; reflexivity|]. split; vm_compute; reflexivity. Qed.
 
 (** non-vacuity: a valid run of six growth steps (two fragments, '>'/'<' and labelled '$'
     descriptors, a zero conditional reactivity, a terminal descriptor) *)
@@ -275,3 +321,7 @@ Print Assumptions C16_numbering_canonical.
 Print Assumptions C16_sample_numbering_canonical.
 Print Assumptions C16_nonvacuous.
 Print Assumptions C16_numbering_nonvacuous.
+Print Assumptions C16_added_hydrogens_after_atoms.
+Print Assumptions C16_rebuild_keys_order.
+Print Assumptions C16_rebuild_keys_order_nonvacuous.
+Print Assumptions C16_added_hydrogens_nonvacuous.
